@@ -252,6 +252,75 @@ pub fn number_is_safe_integer(
     }
 }
 
+/// Every significant decimal digit of a finite, non-zero `|n|` (a double has at most 767)
+/// and the decimal exponent of the first digit. `{:.770e}` is an exact expansion.
+fn exact_decimal_digits(n: f64) -> (Vec<u8>, i32) {
+    let sci = format!("{:.770e}", n.abs());
+    let (mantissa, exp) = sci.split_once('e').unwrap_or((sci.as_str(), "0"));
+    let digits = mantissa
+        .bytes()
+        .filter(|b| b.is_ascii_digit())
+        .map(|b| b - b'0')
+        .collect();
+    (digits, exp.parse().unwrap_or(0))
+}
+
+/// Round exact digits to `k` significant digits; a tie goes to the larger value, as
+/// toFixed / toExponential / toPrecision prescribe ("if there are two such n, pick the larger n").
+/// `k <= 0` rounds at or left of the first digit: the result is empty (zero) or a single unit.
+fn round_decimal_digits(mut digits: Vec<u8>, exp: i32, k: i32) -> (Vec<u8>, i32) {
+    if k <= 0 {
+        if k == 0 && digits.first().is_some_and(|d| *d >= 5) {
+            return (vec![1], exp + 1);
+        }
+        return (Vec::new(), exp);
+    }
+    let k = k as usize;
+    let round_up = digits.get(k).is_some_and(|d| *d >= 5);
+    digits.resize(k, 0);
+    let mut exp = exp;
+    if round_up {
+        let mut i = k;
+        loop {
+            if i == 0 {
+                digits.insert(0, 1);
+                digits.truncate(k);
+                exp += 1;
+                break;
+            }
+            i -= 1;
+            match digits.get_mut(i) {
+                Some(d) if *d == 9 => *d = 0,
+                Some(d) => {
+                    *d += 1;
+                    break;
+                }
+                None => break,
+            }
+        }
+    }
+    (digits, exp)
+}
+
+fn push_digits(out: &mut String, digits: &[u8]) {
+    for d in digits {
+        out.push((b'0' + d) as char);
+    }
+}
+
+/// `d[.ddd]e+x` / `d[.ddd]e-x`
+fn push_exponent_form(out: &mut String, digits: &[u8], exp: i32) {
+    let (first, rest) = digits.split_at(digits.len().min(1));
+    push_digits(out, first);
+    if !rest.is_empty() {
+        out.push('.');
+        push_digits(out, rest);
+    }
+    out.push('e');
+    out.push(if exp >= 0 { '+' } else { '-' });
+    out.push_str(&exp.abs().to_string());
+}
+
 // Number.prototype.toFixed
 pub fn number_to_fixed(
     interp: &mut Interpreter,
@@ -267,7 +336,46 @@ pub fn number_to_fixed(
         ));
     }
 
-    let result = format!("{:.prec$}", n, prec = digits as usize);
+    // Non-finite values and |n| >= 1e21 print like String(n)
+    if !n.is_finite() || n.abs() >= 1e21 {
+        return Ok(Guarded::unguarded(JsValue::String(JsString::from(
+            format_number_js(n),
+        ))));
+    }
+
+    let mut result = String::new();
+    if n < 0.0 {
+        result.push('-');
+    }
+    let (rounded, exp) = if n == 0.0 {
+        (Vec::new(), 0)
+    } else {
+        let (exact, exp) = exact_decimal_digits(n);
+        let (mut rounded, exp) = round_decimal_digits(exact, exp, exp + 1 + digits);
+        if !rounded.is_empty() {
+            // a carry into a new leading digit moves the exponent: keep `digits` fraction digits
+            rounded.resize((exp + 1 + digits).max(1) as usize, 0);
+        }
+        (rounded, exp)
+    };
+    if rounded.is_empty() {
+        result.push('0');
+        if digits > 0 {
+            result.push('.');
+            result.push_str(&"0".repeat(digits as usize));
+        }
+    } else if exp >= 0 {
+        let (int_part, frac_part) = rounded.split_at((exp as usize + 1).min(rounded.len()));
+        push_digits(&mut result, int_part);
+        if !frac_part.is_empty() {
+            result.push('.');
+            push_digits(&mut result, frac_part);
+        }
+    } else {
+        result.push_str("0.");
+        result.push_str(&"0".repeat((-exp - 1) as usize));
+        push_digits(&mut result, &rounded);
+    }
     Ok(Guarded::unguarded(JsValue::String(JsString::from(result))))
 }
 
@@ -367,41 +475,35 @@ pub fn number_to_precision(
         ))));
     }
 
-    let result = format!("{:.prec$e}", n, prec = (precision - 1) as usize);
-    // Parse and reformat to match JS behavior
-    let parts: Vec<&str> = result.split('e').collect();
-    if let [mantissa_str, exp_str] = parts.as_slice() {
-        let mantissa = mantissa_str.parse::<f64>().unwrap_or(0.0);
-        let exp: i32 = exp_str.parse().unwrap_or(0);
-
-        // If exponent is small enough, use fixed notation
-        if exp >= 0 && exp < precision {
-            let decimals = precision - 1 - exp;
-            if decimals >= 0 {
-                return Ok(Guarded::unguarded(JsValue::String(JsString::from(
-                    format!("{:.prec$}", n, prec = decimals as usize),
-                ))));
-            }
-        } else if (-4..0).contains(&exp) {
-            // For small numbers, use fixed notation
-            let decimals = precision - 1 - exp;
-            if (0..=100).contains(&decimals) {
-                return Ok(Guarded::unguarded(JsValue::String(JsString::from(
-                    format!("{:.prec$}", n, prec = decimals as usize),
-                ))));
-            }
-        }
-
-        // Use exponential notation
-        let exp_sign = if exp >= 0 { "+" } else { "" };
-        return Ok(Guarded::unguarded(JsValue::String(JsString::from(
-            format!("{}e{}{}", mantissa, exp_sign, exp),
-        ))));
+    let mut result = String::new();
+    if n < 0.0 {
+        result.push('-');
     }
-
-    Ok(Guarded::unguarded(JsValue::String(JsString::from(
-        format!("{}", n),
-    ))))
+    if n == 0.0 {
+        result.push('0');
+        if precision > 1 {
+            result.push('.');
+            result.push_str(&"0".repeat((precision - 1) as usize));
+        }
+        return Ok(Guarded::unguarded(JsValue::String(JsString::from(result))));
+    }
+    let (exact, exp) = exact_decimal_digits(n);
+    let (digits, exp) = round_decimal_digits(exact, exp, precision);
+    if exp < -6 || exp >= precision {
+        push_exponent_form(&mut result, &digits, exp);
+    } else if exp >= 0 {
+        let (int_part, frac_part) = digits.split_at((exp as usize + 1).min(digits.len()));
+        push_digits(&mut result, int_part);
+        if !frac_part.is_empty() {
+            result.push('.');
+            push_digits(&mut result, frac_part);
+        }
+    } else {
+        result.push_str("0.");
+        result.push_str(&"0".repeat((-exp - 1) as usize));
+        push_digits(&mut result, &digits);
+    }
+    Ok(Guarded::unguarded(JsValue::String(JsString::from(result))))
 }
 
 // Number.prototype.toExponential
@@ -418,16 +520,43 @@ pub fn number_to_exponential(
         ))));
     }
 
-    let digits = args.first().map(|v| v.to_number() as i32).unwrap_or(6);
+    // Without an argument: as many digits as necessary to identify the number
+    let requested = match args.first() {
+        None | Some(JsValue::Undefined) => None,
+        Some(v) => Some(v.to_number() as i32),
+    };
 
-    if !(0..=100).contains(&digits) {
+    if requested.is_some_and(|digits| !(0..=100).contains(&digits)) {
         return Err(JsError::range_error(
             "toExponential() argument must be between 0 and 100",
         ));
     }
 
-    let result = format!("{:.prec$e}", n, prec = digits as usize);
-    // Convert Rust's "e" notation to JS format (e.g., "1.23e2" -> "1.23e+2")
-    let result = result.replace("e", "e+").replace("e+-", "e-");
+    let mut result = String::new();
+    if n < 0.0 {
+        result.push('-');
+    }
+    let (digits, exp) = if n == 0.0 {
+        (vec![0; requested.unwrap_or(0) as usize + 1], 0)
+    } else {
+        match requested {
+            Some(fraction_digits) => {
+                let (exact, exp) = exact_decimal_digits(n);
+                round_decimal_digits(exact, exp, fraction_digits + 1)
+            }
+            None => {
+                // shortest digits that read back to n
+                let sci = format!("{:e}", n.abs());
+                let (mantissa, exp) = sci.split_once('e').unwrap_or((sci.as_str(), "0"));
+                let digits = mantissa
+                    .bytes()
+                    .filter(|b| b.is_ascii_digit())
+                    .map(|b| b - b'0')
+                    .collect();
+                (digits, exp.parse().unwrap_or(0))
+            }
+        }
+    };
+    push_exponent_form(&mut result, &digits, exp);
     Ok(Guarded::unguarded(JsValue::String(JsString::from(result))))
 }
